@@ -1,5 +1,6 @@
 """C02 — case generator: script parsing / push encoding."""
 ID = "C02"
+EXTRA_TARGETS = ["Proofs/OpcodeTie.vo"]   # regenerated opcode enum == protocol table
 LEVEL = "proof"
 RULE = ("grammar-based scripts (all opcode bytes, every push form, nested conditionals), boundary push lengths, "
         "truncations/mutations, exhaustive 1- and 2-byte scripts in the thorough tier; "
@@ -99,6 +100,9 @@ def generate(rng, tier):
             for body in (a + b + "6868", a + "67" + b + "6868", a + b + "676868", a + "67" + b + "67" + "6868", a + b + "68", a + "67" + b + "68",
                          a + b + "6867" + "68", a + "51" + b + "52" + "68" + "67" + b + "53" + "67" + "54" + "68" + "68"):
                 P(body)
+    # the name and value every opcode byte parses to, against the protocol table
+    for a in range(256):
+        cases.append(("script.opname", [str(a)]))
     # grammar-based
     ngram = 250 if tier == "quick" else 3000
     for i in range(ngram):
